@@ -174,6 +174,16 @@ pub fn run(rt: &tokio::runtime::Runtime, pool: &KeyPool, sc: &Value) -> Value {
             continue;
         }
         let r: Result<Value, tough::error::Error> = (|| {
+            // an operation on the editor after the editor was consumed by a refused sign, or after from_repo failed
+            if s.editor.is_none()
+                && matches!(
+                    kind,
+                    "add_target" | "remove_target" | "clear_targets" | "versions" | "expires" | "delegate_role"
+                        | "sign_targets_editor" | "change_delegated_targets" | "update_delegated_targets" | "sign_write"
+                )
+            {
+                return Ok(json!([997]));
+            }
             match kind {
                 "new" => {
                     s.editor = Some(rt.block_on(RepositoryEditor::new(&s.root_path))?);
